@@ -674,6 +674,15 @@ impl Prop for C19 {
                     if a != b {
                         verdict = mk("shuffle_multiset", "not_a_permutation",
                             format!("output multiset differs from input (len in {}, out {})", n, out.len()));
+                    } else if !faulty && n >= 20 && orig_bits.len() == n && slice_bits_eq(&out, &data).is_none() {
+                        // "for every random stream ... a permutation": a shuffle that hands back its
+                        // input in the original order, on >= 20 distinct values, has not consulted the
+                        // stream (a uniform permutation is the identity with probability 1/n! < 5e-19)
+                        st.inc("stat.identity_checked");
+                        verdict = mk("shuffle_multiset", "identity_permutation",
+                            format!("shuffle of {} distinct values returned them in their original order", n));
+                    } else if !faulty && n >= 20 && orig_bits.len() == n {
+                        st.inc("stat.identity_checked");
                     }
                 }
             },
@@ -704,6 +713,13 @@ impl Prop for C19 {
                                     verdict = mk("shuffle_two_paired", "unpaired",
                                         format!("output pair {} = ({:e}, tag {}) but input pair {} was ({:e}, tag {})", j, x[j], i, i, data[i as usize], i));
                                     break;
+                                }
+                            }
+                            if verdict.is_none() && !faulty && n >= 20 {
+                                st.inc("stat.identity_checked");
+                                if (0..n).all(|j| y[j] == tag(j)) {
+                                    verdict = mk("shuffle_two_paired", "identity_permutation",
+                                        format!("shuffle_two of {} pairs returned them in their original order", n));
                                 }
                             }
                         }
